@@ -74,6 +74,13 @@ def configs(tier, seed):
         for rhs in ("number", "ndarray", "read"):
             out.append(dict(h="falsy_label", op="falsy", key=f"falsy_label/{form}/{rhs}", xd="ab", lens=dict(a=3, b=2), form=form, rhs=rhs))
     out.append(dict(h="ambiguous", op="amb", key="ambiguous/shared-item", xd="ab", lens=dict(a=2, b=2)))
+    # integer items that look like a range at both ends but are not in ascending order inside, or not evenly spaced
+    for items in ([2020, 2022, 2021, 2023], [3, 1, 2], [1990, 2000, 2005, 2020], [5, 4, 3, 2]):
+        for form in ("bare", "dict", "tuple", "list"):
+            for rhs in ("read", "number", "ndarray"):
+                if form == "list" and rhs == "read":
+                    continue
+                out.append(dict(h="int_labels", op="intl", key=f"int_labels/{'_'.join(map(str, items))}/{form}/{rhs}", xd="ta", lens=dict(t=len(items), a=2), items=items, form=form, rhs=rhs))
     # keys that are not items of a typed dimension but would convert to one (2010.5, "2010", 1 for "1") are unknown items
     for form in ("dict_letter", "dict_name", "bare", "tuple", "list", "subset"):
         out.append(dict(h="typed_keys", op="typed", key=f"typed_keys/{form}", xd="ts", lens=dict(t=3, s=2), form=form))
@@ -138,6 +145,36 @@ def run(cfg, w):
         w.ob_arr_eq("named_dim_resolves_shared_item_b", r.values, X[:, 0])
         r = x["p", "r"]
         w.ob_eq("two_unique_items", r.values[()], X[0, 1])
+        return
+    if h == "int_labels":
+        items = cfg["items"]
+        dt_ = Dimension(name="Time", letter="t", items=list(items), dtype=int)
+        da_ = Dimension(name="Alpha", letter="a", items=["a1", "a2"])
+        # (time not first: the addressed axis is not axis 0)
+        X = w.arr("x", (2, len(items)))
+        for pos, it in enumerate(items):
+            x = FlodymArray(dims=DimensionSet(dim_list=[da_, dt_]), values=X.copy())
+            key = {"bare": it, "dict": {"t": it}, "tuple": ("a2", it), "list": {"t": [it]}}[cfg["form"]]
+            rows = [1] if cfg["form"] == "tuple" else [0, 1]
+            if cfg["rhs"] == "read":
+                r = x[key]
+                want = X[1, pos] if cfg["form"] == "tuple" else X[:, pos]
+                w.ob_arr_eq(f"read[{it}]", np.asarray(r.values), np.asarray(want))
+                continue
+            if cfg["rhs"] == "number":
+                k = w.real(f"k{pos}")
+                x[key] = k
+                val = lambda r_: k
+            else:
+                shape_ = () if cfg["form"] == "tuple" else ((2, 1) if cfg["form"] == "list" else (2,))
+                R = w.arr(f"r{pos}", shape_)
+                x[key] = R.copy()
+                val = (lambda r_: R[()]) if cfg["form"] == "tuple" else ((lambda r_: R[r_, 0]) if cfg["form"] == "list" else (lambda r_: R[r_]))
+            for idx in np.ndindex(2, len(items)):
+                if idx[1] == pos and idx[0] in rows:
+                    w.ob(f"write[{it}]:inside{list(idx)}", w.same(x.values[idx], val(idx[0])))
+                else:
+                    w.ob(f"write[{it}]:outside{list(idx)}", w.same(x.values[idx], X[idx]))
         return
     if h == "typed_keys":
         dt_ = Dimension(name="Time", letter="t", items=[2000, 2010, 2020], dtype=int)
